@@ -172,6 +172,13 @@ int Ym2612Private::LFO_FREQ_TAB[LFO_LENGTH];	// LFO FMS TABLE
 Ym2612Private::Ym2612Private(Ym2612 *q)
 	: q(q)
 {
+	// reset() and reInit() do not cover every field (slot INd/AMS/AMSon,
+	// channel FFlag, ...): start from a defined state instead of heap garbage
+	memset(&state, 0, sizeof(state));
+	// update() copies int_cnt back into state.Inter_Cnt even when every channel
+	// was idle and no channel routine had loaded it yet
+	int_cnt = 0;
+
 	if (!isInit) {
 		// Initialize the static tables.
 		isInit = true;
